@@ -12,7 +12,7 @@ LEVEL_TEXT = ('Held on the (program, derived pattern) pairs observed: for genera
               'ast.unparse after random generalisation steps; the real find_matches must return at least one match and some match '
               'must bind every _vN_ to the identifier it replaced and every __eN__ to exactly the subtree (position and dump) it '
               'replaced. Each further generalisation of a matching pattern is re-checked (monotonicity). Evidence lists the statement '
-              'kinds and field positions covered.')
+              'kinds and field positions covered. Presentations include a report of the grader\'s own and a file split again after other text failed.')
 LEVEL_NOTE = ('Identifier placeholders are applied to plain variable names (names that are also callee, definition, parameter, '
               'import or except-alias names stay concrete: those use CAIT\'s separate function/class tables); each __eN__ is used '
               'once per pattern (repeated expression placeholders are a documented TODO). Expression positions inside f-strings, '
